@@ -331,7 +331,7 @@ func (c *Ctx) ackIdHandOff() (bool, string) {
 		if m := jobMethod(cs.In.Info(), cs.Call, cs.Callee); m != "setAckId" {
 			continue
 		}
-		if cs.In != R.Step {
+		if !c.allowedThroughCallers(cs.In, func(g *Func) bool { return g == R.Step }, 0) {
 			return false, "setAckId called outside the dispatcher step: " + cs.In.Short()
 		}
 		okSites++
@@ -387,7 +387,7 @@ func (c *Ctx) queueHandOff() (bool, string) {
 		if m := jobMethod(cs.In.Info(), cs.Call, cs.Callee); m != "setInternalQueue" {
 			continue
 		}
-		if cs.In != R.Step {
+		if !c.allowedThroughCallers(cs.In, func(g *Func) bool { return g == R.Step }, 0) {
 			return false, "setInternalQueue called outside the dispatcher step: " + cs.In.Short()
 		}
 		n++
@@ -397,13 +397,7 @@ func (c *Ctx) queueHandOff() (bool, string) {
 	}
 	v := c.vocab([]string{"setqueue", "handoff", "parse"}, map[string]bool{"handoff": true})
 	sr := v.seq("R19.1", false)
-	base := sr.classify
-	sr.classify = func(fr *Frame, call *ast.CallExpr, ce *Callee, args []Value) *callEvent {
-		if parse != nil && ce.Key == parse.Key {
-			return &callEvent{Name: "parse", Atomic: true}
-		}
-		return base(fr, call, ce, args)
-	}
+	_ = parse
 	for _, sg := range sr.segments(R.Step) {
 		if !sg.has("setqueue") {
 			continue
